@@ -523,6 +523,11 @@ def parse_equation_terms(equation: str) -> List[Term]:
             term = term._replace(type=new_type)
         return term
 
+    if '=' not in equation:
+        # `equation_re` accepts a bracketed or fenced statement through its
+        # verbatim-block alternative even if it has no '=': not an equation
+        raise ParserError(f"Failed to find '=' in equation: '{equation}'")
+
     left, right = equation.split('=', maxsplit=1)
 
     try:
